@@ -162,7 +162,7 @@ func (s *Session) Run(b *Behaviour) error {
 			fs = true
 		}
 	}
-	if len(s.H.Jobs) > 0 || fs {
+	if len(s.H.Jobs) > 0 || fs || s.H.Ms != nil {
 		if err := s.preassertIDs(); err != nil {
 			return err
 		}
@@ -285,6 +285,8 @@ func (s *Session) Step(st *Step) error {
 			s.diverge("step-answer", map[string]any{"index": len(s.Answers) - 1, "step": st.A, "id": st.ID, "start": st.Start, "end": st.End, "b": st.B}, exp, act, "")
 		}
 		return nil
+	case "catchup":
+		return s.catchUp(st)
 	case "job":
 		return s.runJob(st)
 	case "read":
